@@ -1,4 +1,5 @@
 """C01 Canonicity: hash-consing discipline"""
+import elin
 import eswap
 import evlm
 import witness
@@ -63,4 +64,11 @@ def run(ctx):
     nsw = eswap.run(ctx, F)
     ctx.floor("E-TABLE.swap", "interpreted level_swap situations", nsw, 80)
     ecanon.check_id_split(ctx, F)
+    ctx.explain("E-LIN.rcguard: try_remove_node (both managers) reaches the removal from the unique table only with previous "
+                "count 2, prepared manager and re-read count 1. E-CANON.ptrsplit: in the pointer-based manager terminal "
+                "operations lie on the !is_inner() edge and inner-node operations on the is_inner() edge.")
+    nrg = elin.check_removal_guards(ctx, F)
+    ctx.floor("E-LIN.rcguard", "try_remove_node bodies", nrg, 2)
+    nps = ecanon.check_ptr_split(ctx, F)
+    ctx.floor("E-CANON.ptrsplit", "is_inner() branches of the pointer-based manager", nps, 6)
     ctx.not_decided = "the 'iff' over histories (gc, slot reuse, reordering); handle equality across managers"
